@@ -28,6 +28,7 @@ pub fn recasings(lang: &text2num::Language, l: L, words: &[&str]) -> Vec<(&'stat
         ("aLtErNaTiNg", words.iter().map(|w| alternating(w)).collect()),
         ("NUMBER words upper", words.iter().zip(&is_num).map(|(w, n)| if *n { w.to_uppercase() } else { w.to_string() }).collect()),
         ("OTHER words upper", words.iter().zip(&is_num).map(|(w, n)| if !*n { w.to_uppercase() } else { w.to_string() }).collect()),
+        ("only non-ASCII letters upper", words.iter().map(|w| w.chars().map(|c| if c.is_ascii() { c.to_string() } else { c.to_uppercase().collect::<String>() }).collect::<String>()).collect()),
     ]
 }
 
@@ -125,7 +126,7 @@ pub fn run(tier: Tier) -> i32 {
     }
     let cov = json!({
         "exhaustive": true,
-        "rule": "every word sequence of length <= k over the class alphabet (+ every vocabulary word alone) in 5 recasings (UPPER, Title, alternating, only number words upper, only other words upper), kept when lower(recase(s)) = lower(s); token path, text path and validator compared with the lower-case original at every threshold; non-trivial = (sequence, recasing) pairs actually different from the original",
+        "rule": "every word sequence of length <= k over the class alphabet (+ every vocabulary word alone) in 6 recasings (UPPER, Title, alternating, only number words upper, only other words upper, only non-ASCII letters upper), kept when lower(recase(s)) = lower(s); token path, text path and validator compared with the lower-case original at every threshold; non-trivial = (sequence, recasing) pairs actually different from the original",
         "bounds": {"wide_alphabet": n1, "wide_depth": k1, "deep_alphabet": n2, "deep_depth": k2},
         "thresholds": T.iter().map(|t| thr_name(*t)).collect::<Vec<_>>(),
         "alphabets": alphas,
